@@ -328,7 +328,7 @@ class NeedFile(Exception):
 
 
 def selftest_context():
-    return dict(names=_ST['names'], dwarf_names=_ST.get('dwarf_names', []), prep_cross=_ST['prep_cross'],
+    return dict(names=_ST['names'], dwarf_names=_ST.get('dwarf_names', []), prep_cross=_ST['prep_cross'], gpairs=_ST.get('gpairs', []),
                 n_random=_ST['n_random'], n_pairs=_ST.get('n_pairs', 0), n_xfile=_ST.get('n_xfile', 0), n_lutgen=_ST.get('n_lutgen', 0))
 
 
@@ -338,7 +338,7 @@ def _prepare_subset(prop, tier, seed, only, context):
     _ST.clear()
     _ST.update(files={}, prop=prop, prep={}, skipped_files={}, tier=tier, names=context['names'], dwarf_names=context['dwarf_names'],
                prep_cross=context['prep_cross'], n_random=context['n_random'], n_pairs=context['n_pairs'], n_xfile=context['n_xfile'],
-               n_lutgen=context.get('n_lutgen', 0))
+               n_lutgen=context.get('n_lutgen', 0), gpairs=[tuple(x) for x in context.get('gpairs', [])])
     focus = _focus(prop)
     nx = len(_ST['prep_cross'])
 
@@ -365,7 +365,11 @@ def _prepare_subset(prop, tier, seed, only, context):
             _ST['seed'] = seed
             first.update(_xfile_pairs()[index - nx - _ST['n_random'] - _ST['n_pairs']])
         elif index >= nx + _ST['n_random']:
-            first.add(names[(index - nx - _ST['n_random']) % len(names)])
+            k = index - nx - _ST['n_random']
+            if k < len(_ST['gpairs']):
+                first.add(_ST['gpairs'][k][0])
+            else:
+                first.add(names[(k - len(_ST['gpairs'])) % len(names)])
         else:
             first.add(names[(index - nx) % len(names)] if r.random() < 0.5 else r.choice(names))
     for n in names:
@@ -449,7 +453,8 @@ def prepare(prop, tier, seed, only=None, context=None):
     _ST['tier'] = tier
     npairs = 0
     _ST['n_random'] = (14000 if prop == 'C10' else 8000) if tier == 'quick' else (150000 if prop == 'C10' else 60000)
-    _ST['n_pairs'] = (6000 if prop == 'C10' else 3000) if tier == 'quick' else (120000 if prop == 'C10' else 30000)
+    _ST['gpairs'] = _group_pairs(seed, tier, prop)
+    _ST['n_pairs'] = len(_ST['gpairs']) + ((3000 if prop == 'C10' else 1500) if tier == 'quick' else (90000 if prop == 'C10' else 24000))
     _ST['dwarf_names'] = [n for n in _ST['names'] if any(_kind(o) in ('lineprog_seq', 'die_iter') for o in _ST['files'][n]['pool'])]
     _ST['n_xfile'] = 0
     _ST['seed'] = seed
@@ -460,6 +465,77 @@ def prepare(prop, tier, seed, only=None, context=None):
     if not _ST['names']:
         _ST['n_random'] = 0
         _ST['n_pairs'] = 0
+
+
+# op kinds that work on the same lazily built structure (cache, map, shared cursor): the ordered pairs inside a group are
+# where one query can change the answer of another, so they are covered systematically instead of by chance
+GROUPS = {
+    'type units': ['tu_iter', 'tu_by_sig', 'die_by_sig', 'tu_die_iter', 'session:tu'],
+    'unit list': ['cu_iter', 'cu_at', 'cu_containing', 'cu_containing_seq', 'die_at_info', 'lut_die', 'die_top', 'session:cu', 'aranges_lookup',
+                  'tu_iter', 'die_by_sig'],
+    'entry lists': ['die_iter', 'die_at', 'die_children', 'die_siblings', 'die_parent', 'die_parent_chain', 'die_path', 'die_ref', 'die_top',
+                    'session:die', 'die_at_info', 'session:cu'],
+    'abbreviations and strings': ['abbrev', 'str_table', 'linestr', 'addr_get', 'die_at', 'die_top'],
+    'line programs': ['lineprog_seq', 'session:lineprog', 'die_path'],
+    'call frames': ['cfi_entries', 'cfi_decoded_seq', 'session:cfi'],
+    'location lists': ['loc_at', 'loc_iter', 'loc_cus', 'loc_attr'],
+    'range lists': ['rng_at', 'rng_at_ex', 'rng_iter', 'rng_cus', 'rng_cu_lists_ex'],
+    'lookup tables': ['pub_items', 'pub_get', 'pub_headers', 'lut_die', 'session:lut', 'aranges_entries', 'aranges_lookup', 'cu_containing'],
+    'sections': ['sec_iter', 'sec_get', 'sec_get_typed', 'sec_by_name', 'sec_index', 'has_sec', 'num_sec', 'sec_data', 'has_dwarf', 'dw_flags', 'session:sec'],
+    'segments': ['seg_iter', 'seg_get', 'num_seg', 'seg_data', 'interp', 'sec_in_seg', 'addr_offsets', 'session:seg'],
+    'symbols': ['sym_num', 'sym_get', 'sym_iter', 'sym_by_name', 'sym_by_name_held', 'shndx_get', 'session:symtab', 'str_get'],
+    'dynamic': ['dyn_iter', 'dyn_get', 'dyn_num', 'dyn_table_offset', 'dyn_reltabs', 'dynseg_sym_num', 'dynseg_sym_get', 'dynseg_sym_iter',
+                'dynseg_sym_by_name', 'session:dynsec', 'session:dynseg'],
+    'relocations': ['rel_num', 'rel_get', 'rel_iter', 'session:rel', 'dyn_reltabs'],
+    'versions': ['ver_iter', 'ver_get', 'ver_has_indexes', 'session:ver'],
+    'hash tables': ['hash_get', 'hash_count', 'session:hash', 'dynseg_sym_num'],
+    'other records': ['notes_iter', 'stabs_iter', 'attrs_walk', 'ehabi_get', 'ehabi_seq', 'has_ehabi', 'machine_arch'],
+}
+
+
+def _group_pairs(seed, tier, prop):
+    """-> list of (file, kind A, kind B).  Per group: every ordered pair of its kinds on every file where both apply when
+    that fits the group's budget (up to four times, with other arguments each time), otherwise a seeded selection that
+    visits the kind pairs round-robin (every kind pair is covered before any gets a second file)."""
+    per_group = (350 if prop == 'C10' else 250) if tier == 'quick' else 6000
+    names = _ST['names']
+    have = {n: set(_kind(o) for o in _ST['files'][n]['pool']) for n in names}
+    out = []
+    for g in sorted(GROUPS):
+        kinds = GROUPS[g]
+        by_pair = {}
+        for n in names:
+            ks = [k for k in kinds if k in have[n]]
+            for ka in ks:
+                for kb in ks:
+                    by_pair.setdefault((ka, kb), []).append(n)
+        r = substream(h64(seed, 'group-pairs', tier, g), 'g')
+        for fl in by_pair.values():
+            r.shuffle(fl)
+        picked = []
+        depth = 0
+        while len(picked) < per_group:
+            added = False
+            for pr in sorted(by_pair):
+                fl = by_pair[pr]
+                if depth < 4 * len(fl) and len(picked) < per_group:
+                    # a combination that comes up again (rare groups) is drawn again with other arguments
+                    picked.append((fl[depth % len(fl)], pr[0], pr[1]))
+                    added = True
+            if not added:
+                break
+            depth += 1
+        out.extend(picked)
+    return out
+
+
+def run_order(prop, tier):
+    """Systematic parts first (findings of the preparation, resource-group and stratified pairs, two-file runs, synthetic
+    tables), the random histories last: if the wall-clock budget runs out it is random histories that are not started."""
+    nx = len(_ST['prep_cross'])
+    n = n_runs(prop, tier)
+    a = nx + _ST['n_random']
+    return list(range(nx)) + list(range(a, n)) + list(range(nx, a))
 
 
 def hang_seen():
@@ -496,24 +572,39 @@ def _is_whole_table_op(o):
 
 
 def _xfile_pairs():
-    """(B, A) pairs of the two-file runs: A is opened and decoded first, then B must answer as if alone.  Partners share
-    class, byte order and - where the corpus allows - e_machine (process-wide tables are keyed by such parameters):
-    all same-machine partners when there are at most 8 of them, a seeded 5 otherwise."""
+    """(B, A) pairs of the two-file runs: A is opened and decoded first, then B must answer as if alone.  Process-wide
+    tables are keyed by header parameters (class, byte order, e_type, e_machine, EI_OSABI); a table keyed by too few of
+    them is wrong exactly when A and B agree on the key and differ in the rest.  So B gets, among the files of its class
+    and byte order, one partner from *every* distinct (EI_OSABI, e_type, e_machine) triple (a seeded choice among the
+    two smallest files of the triple), a second one from triples of its own machine, and up to three more files of its
+    own triple."""
     ps = _ST.get('xfile_pairs')
     if ps is not None:
         return ps
     names = _ST['names']
     hdr = {n: _ST['files'][n]['data'][:20] for n in names}
+    size = {n: len(_ST['files'][n]['data']) for n in names}
     r = substream(h64(_ST.get('seed', 0), 'xfile-pairs', _ST.get('tier', '')), 'p')
+
+    def triple(n):
+        h = hdr[n]
+        return (h[7:8], h[16:18], h[18:20])
     ps = []
     for b in names:
-        same_m = [a for a in names if a != b and hdr[a][4:6] == hdr[b][4:6] and hdr[a][18:20] == hdr[b][18:20]]
-        if len(same_m) > 8:
-            same_m = sorted(r.sample(same_m, 5))
-        if not same_m:
-            same_c = [a for a in names if a != b and hdr[a][4:6] == hdr[b][4:6]]
-            same_m = sorted(r.sample(same_c, min(2, len(same_c))))
-        for a in same_m:
+        by = {}
+        for a in names:
+            if a != b and hdr[a][4:6] == hdr[b][4:6]:
+                by.setdefault(triple(a), []).append(a)
+        chosen = []
+        for t in sorted(by):
+            small = sorted(by[t], key=lambda n: (size[n], n))
+            if t == triple(b):
+                chosen += r.sample(small, min(3, len(small)))
+                continue
+            k = 2 if t[2] == triple(b)[2] else 1
+            cand = small[:max(2, k)]
+            chosen += r.sample(cand, min(k, len(cand)))
+        for a in sorted(set(chosen)):
             ps.append((b, a))
     _ST['xfile_pairs'] = ps
     return ps
@@ -548,6 +639,18 @@ def gen_spec(prop, tier, seed, index):
         # stratified pair pass: file and ordered pair of op kinds are enumerated by the index, the ops of those
         # kinds and the displacement are seeded
         k = index - nx - _ST['n_random']
+        gp = _ST.get('gpairs') or []
+        if k < len(gp):
+            # resource-group pair: two op kinds that work on the same lazily built structure, on a file where both apply
+            name, ka, kb = gp[k]
+            fi = _ST['files'][name]
+            if 'pool' not in fi:
+                raise NeedFile(name)
+            oa = r.choice([o for o in fi['pool'] if _kind(o) == ka])
+            ob = r.choice([o for o in fi['pool'] if _kind(o) == kb])
+            cfg = dict(p_displace=r.choice([0, 0.5, 1.0]), p_abandon=r.choice([0, 0, 0.3]), burst=r.choice([1, 1, 3]), policy='pair')
+            return dict(engine=ENGINE, kind='sim', file=name, tasks=[[oa], [ob]], cfg=cfg, seed=rs, schedule=None, focus=_focus(prop))
+        k -= len(gp)
         name = names[k % len(names)]
         fi = _ST['files'][name]
         kinds = sorted(set(_kind(o) for o in fi['pool']))
@@ -1155,4 +1258,4 @@ def extra_coverage(prop, tier, agg):
 
 def main(prop, tier, seed, budget):
     return runner.explore(__import__('dst.engines.histsim', fromlist=['x']), prop, tier, seed,
-                          batch=48, isolate=45, budget_s=budget or (150 if tier == 'quick' else 1500), max_keys=10)
+                          batch=48, isolate=45, budget_s=budget or (300 if tier == 'quick' else 2400), max_keys=10)
